@@ -87,7 +87,11 @@ def run(ctx):
             ctx.distinct.add((st, '\t'.join(c[2:])))
             pb = treesuite.parse_build(b)
             if pb is None:
-                ctx.fail('corr', c, impl=b[:300], note='unreadable BUILD dump'); continue
+                if '<none>' in b:
+                    ctx.fail('oracle', c, impl=b[:500], model=None, expect='every jump-table entry below the reported length can be read back', note=f'ill-formed object ({st}): a jump-table entry below the reported length cannot be read — {treesuite.tok_text(c)!r}')
+                else:
+                    ctx.fail('corr', c, impl=b[:300], note='unreadable BUILD dump')
+                continue
             bad = wf(pb, len(nodes))
             if bad:
                 ctx.fail('oracle', c, impl=b[:500], model=None, expect='well-formed stream', note=f'ill-formed instruction stream ({st}): ' + '; '.join(bad[:4]) + f' — {treesuite.tok_text(c)!r}')
@@ -117,7 +121,7 @@ def run(ctx):
                 stats['accepted-after-earlier'] = stats.get('accepted-after-earlier', 0) + 1
                 ctx.distinct.add((c[2], c[3], '\t'.join(c[4:])))
                 pb = treesuite.parse_build(a)
-                bad = wf(pb, 1 << 30) if pb else ['unreadable dump']
+                bad = wf(pb, 1 << 30) if pb else (['a jump-table entry below the reported length cannot be read back'] if '<none>' in a else ['unreadable dump'])
                 if bad:
                     ctx.fail('oracle', c, impl=a[:500], model=None, expect='well-formed object', note=f'ill-formed object after {c[3]} earlier program(s) ({c[2]}): ' + '; '.join(bad[:4]) + f' — {treesuite.tok_text(c[:2] + c[4:])!r}')
                 wrows.append(['WFCHK', c[1], vlib.esc(a), str(1 << 30)])
